@@ -34,7 +34,7 @@ class C20(Harness):
     labels = ("rejected-iff-invalid", "valid-twin-accepted", "proper-exception-type", "no-fitted-state-after-rejection")
     stubs = ("member forecasters / transformers of composites := recording stubs", "scoring := uninterpreted callable")
     assumptions = ("index labels with ties (equal neighbours) are neither required to be accepted nor rejected", "component names are drawn from a small concrete alphabet")
-    outside = ("datetime / period indices", "string-valued indices (the concrete replay world cannot distinguish an object Index from an integer Index)")
+    outside = ("values of datetime / period indices (such indices are only made and recognised by type, e.g. as a wrongly-typed relative horizon)", "string-valued indices (the concrete replay world cannot distinguish an object Index from an integer Index)")
 
     CASES = [
         "unsorted-index", "empty-index", "bad-target-type", "x-index-differs", "fh-duplicate", "fh-empty-fractional-type", "fh-missing",
@@ -186,6 +186,12 @@ class C20(Harness):
             X = pd.DataFrame({"x": inp["y"][:3]}, index=pd.Index([s0 + i + d for i, d in enumerate(inp["dx"])]))
             eps = entry_points(y, X)
             out["eps"] = eps
+            # a forecaster that was fitted before: a refused second fit leaves no trace of the refused series
+            f0 = NF("last").fit(good)
+            y2 = pd.Series([v + 1 for v in inp["y"][:3]], index=pd.RangeIndex(s0 + 10, s0 + 13))
+            X2 = pd.DataFrame({"x": inp["y"][:3]}, index=pd.Index([s0 + 10 + i + d for i, d in enumerate(inp["dx"])]))
+            r0 = attempt(lambda: f0.fit(y2, X2))
+            out["refit"] = {"res": r0, "cutoff": S(f0.cutoff), "remembered": L(f0._y.values), "good_cutoff": S(good.index[-1]), "good": L(good.values)}
         elif k == "fh-duplicate":
             fh = np.array(inp["fh2"])
             f = NF("last").fit(good)
@@ -213,6 +219,11 @@ class C20(Harness):
                 g = NF("last")
                 out["fit:" + name] = attempt(lambda bad=bad, g=g: g.fit(good, fh=bad), lambda g=g: g.is_fitted)
                 out["splitter:" + name] = attempt(lambda bad=bad: list(sp.SlidingWindowSplitter(fh=bad, window_length=1).split(good)))
+            # time stamps / periods are absolute by nature: as a (default, relative) horizon they are refused by type
+            for name, bad in (("period_index", pd.period_range("2000-01", periods=2, freq="M")), ("datetime_index", pd.date_range("2000-01-01", periods=2, freq="D"))):
+                out["FH:" + name] = attempt(lambda bad=bad: FH(bad))
+                g = NF("last")
+                out["fit:" + name] = attempt(lambda bad=bad, g=g: g.fit(good, fh=bad), lambda g=g: g.is_fitted)
             out["ok:int"] = attempt(lambda: f.predict(1))
             out["ok:list"] = attempt(lambda: f.predict([1, 2]))
             out["ok:array"] = attempt(lambda: f.predict(np.array([2])))
@@ -366,6 +377,13 @@ class C20(Harness):
                 if name in ("splitter.split", "trend.fit"):
                     continue
                 verdict(name, res, differs)
+            rf = out["refit"]
+            verdict("refit-of-a-fitted-forecaster", rf["res"], differs)
+            if rf["res"].split("+")[0] != "ok":
+                P.eq("no-fitted-state-after-rejection", rf["cutoff"], rf["good_cutoff"], {"entry": "refit-of-a-fitted-forecaster", "what": "cutoff after the refused fit"})
+                P.check("no-fitted-state-after-rejection", len(rf["remembered"]) == len(rf["good"]), {"entry": "refit-of-a-fitted-forecaster", "what": "remembered series after the refused fit"})
+                for a, b in zip(rf["remembered"], rf["good"]):
+                    P.eq("no-fitted-state-after-rejection", a, b, {"entry": "refit-of-a-fitted-forecaster", "what": "remembered series after the refused fit"})
         elif k == "fh-duplicate":
             dup = inp["fh2"][0] == inp["fh2"][1]
             for name, res in out.items():
